@@ -107,6 +107,15 @@ def gen_scenario(ctx, k):
     bad = copy.deepcopy(cfgA)
     bad['trains'][0]['steps'] = 99
     dB = cfggen.write_config(bad, cfg_dir(f'c16_{k}_bad'))
+    # the same boards, node tree and trains with the opposite SecAck setting and other feature values: what an earlier session learned about a node
+    # address (or a board) must not leak into the next one
+    alt = copy.deepcopy(cfgA)
+    for b in alt['boards']:
+        f = [(n_, (v_ + 1) % 256) for (n_, v_) in (b['features'] or []) if n_ != 3]
+        if not cfggen.secack(b):
+            f.append((3, 1))
+        b['features'] = f or None
+    dAlt = cfggen.write_config(alt, cfg_dir(f'c16_{k}_alt'))
     sc = Scn(seed=ctx.seed * 83 + k, watchdog=300000)
     sessions = []
     mode = rng.choice(['mixed', 'mixed', 'repeat'])
@@ -122,9 +131,12 @@ def gen_scenario(ctx, k):
             sessions.append(('normal', exp, fi))
     else:
         for i in range(rng.randrange(1, 6)):
-            kind = rng.choice(['normal', 'normal', 'serial', 'serial', 'debug', 'silent', 'silentnew', 'silentnew', 'badcfg', 'nullcb', 'nodevice'])
+            kind = rng.choice(['normal', 'normal', 'serial', 'serial', 'debug', 'silent', 'silentnew', 'silentnew', 'badcfg', 'nullcb', 'nodevice', 'othercfg', 'othercfg'])
             fi = rng.choice([0, 0, 1, 3])
-            ls, exp = session_lines(rng, kind, dA, dB, cfgA, nodesA, fi)
+            if kind == 'othercfg':
+                ls, exp = session_lines(rng, 'normal', dAlt, dB, alt, nodesA, fi)
+            else:
+                ls, exp = session_lines(rng, kind, dA, dB, cfgA, nodesA, fi)
             sc.add(f'mark sess{i}', *ls)
             if rng.random() < 0.2 and exp == 0:
                 sc.add('mark dbl_start', f'start {dA} {rng.choice([0, 1, 3, 7, 5000])}', 'mark dbl_start_end')     # start while running (any interval): must do nothing
